@@ -184,7 +184,10 @@ fn main() {
                                     has_q = true
                                 }
                             });
-                            if has_q {
+                            // a collection bound inside a set (`{[..]}`, `{{..}}`) is not accepted by the
+                            // parser whatever its strings contain: that is the set class, not the quote class
+                            let plain = matches!(v, PT::Lit(_));
+                            if has_q && plain {
                                 text_changed_quote.push(s)
                             } else {
                                 text_changed_other.push(s)
